@@ -765,7 +765,11 @@ func (s *State) applyFunction(name string, fn object.Object, args []object.Objec
 	if !ok {
 		return s.NewError("not a function: " + fn.Type().String() + ":" + fn.Inspect())
 	}
+	// Functions with the same text but another name are told apart by self: they don't share memoized results.
 	memoKey := function.CacheKey
+	if function.Name != nil {
+		memoKey = function.Name.Literal() + " " + memoKey
+	}
 	if v, output, ok := s.cache.Get(memoKey, args); ok {
 		log.Debugf("Cache hit for %s %v -> %#v", function.CacheKey, args, v)
 		if len(output) > 0 {
